@@ -31,10 +31,16 @@ class NameAliasMixin:
         if kw is not None:
             return self._get_first_name(kw_idx + 1, keywords=True)
 
-        # "name alias" or "complicated column expression alias"
-        _, ws = self.token_next_by(t=T.Whitespace)
-        if len(self.tokens) > 2 and ws is not None:
-            return self._get_first_name(reverse=True)
+        # "name alias" or "complicated column expression alias": the alias
+        # is the last token, separated from the expression by whitespace
+        # or a comment.  Behind a period it is the object name ("a . b"),
+        # and a trailing comment is no alias either ("foo -- bar").
+        idx, last = self.token_prev(len(self.tokens), skip_cm=True)
+        _, expr = self.token_prev(idx, skip_cm=True)
+        _, sep = self.token_prev(idx, skip_ws=False)
+        if (expr is not None and not expr.match(T.Punctuation, '.')
+                and sep is not expr):
+            return self._get_first_name(idx)
 
 
 class Token:
